@@ -19,6 +19,8 @@ CLAIMS = {
 }
 
 CLAIMS.update({
+    "C08": dict(technique="static analysis: panic-precondition analysis (interval evaluation of reconstructed operand terms under dominating guards, call-site substitution), loop-progress, tag-switch and narrowing-cast rules over MIR",
+                design="DESIGN.md section 5 C08"),
     "C13": dict(technique="static analysis: guard-relation/dominance, write-before-refusal (effect on paths) and operand-provenance rules over MIR",
                 design="DESIGN.md section 5 C13"),
     "C17": dict(technique="static analysis: interprocedural may-depend (explicit information flow, must-not-depend) over MIR with alias and closure handling",
